@@ -21,6 +21,7 @@ RULE = ("coolers with 2 and 3 chromosomes (fixed and variable width), chromosome
         "volatile) bit-identical; for every bin-aligned region of every chromosome: extent, bins().fetch and matrix().fetch under the "
         "new name == under the old name before; old names that no longer exist are refused. Non-trivial: >=1 name changes. Distinct by "
         "construction.")
+EXTRA_LEGS = 'every other chain applies its last renaming through a Cooler object opened before the history was applied through another object.'
 BOUNDS = {"quick": "all maps; chains of depth 2 over a 5-map sub-alphabet", "thorough": "all maps; chains of depth 3"}
 ASSUMPTIONS = ["names are ASCII without ':'"]
 EXPECT_CLASSES = {"*": ["map:swap-or-cycle", "map:longer", "map:shorter", "map:partial", "enc:enum", "enc:int", "chain"]}
